@@ -260,14 +260,15 @@ func (l *Lexer) readOctalNumber() (string, token.Type) {
 	return l.input[position:l.position], token.INT
 }
 
-// readString reads a string literal
-func (l *Lexer) readString(delimiter byte) string {
+// readString reads a string literal; terminated is false when the input ends
+// before the closing delimiter
+func (l *Lexer) readString(delimiter byte) (literal string, terminated bool) {
 	var result strings.Builder
 
 	for {
 		l.ReadChar()
 		if l.atEOF() {
-			break
+			return result.String(), false
 		}
 		// Handle escape sequences
 		if l.CurrentChar == '\\' {
@@ -421,15 +422,15 @@ func (l *Lexer) readString(delimiter byte) string {
 		}
 		result.WriteByte(l.CurrentChar)
 	}
-	return result.String()
+	return result.String(), true
 }
 
-func (l *Lexer) readRawString() string {
+func (l *Lexer) readRawString() (literal string, terminated bool) {
 	var result strings.Builder
 	for {
 		l.ReadChar()
 		if l.atEOF() {
-			break
+			return result.String(), false
 		}
 		// Handle escaped backticks
 		if l.CurrentChar == '\\' {
@@ -453,7 +454,7 @@ func (l *Lexer) readRawString() string {
 		}
 		result.WriteByte(l.CurrentChar)
 	}
-	return result.String()
+	return result.String(), true
 }
 
 // NextToken generates and returns the next token from the input stream.
